@@ -588,6 +588,30 @@ Example C12_hex_conformity_instance :
 Proof. vm_compute. reflexivity. Qed.
 Print Assumptions C12_hex_conformity_instance.
 
+(* ---------------------------------------------------------------------------------------------
+   Mesh.refined, the dispatch (regenerated from mesh.py statement by statement): for EVERY argument value and ANY uniform step /
+   adaptive routine the wrapper forwards as the model says — a scalar n makes exactly n passes of the uniform loop body
+   (n <= 0: the mesh itself; a bool is the scalar 0 / 1; passes add up), an index collection goes to _adaptive unchanged, a
+   boolean mask is replaced by the list of its true positions. *)
+Theorem C12_refined_dispatch : forall (M : Type) (ustep : M -> M) (adapt : list nat -> M -> M),
+  (forall arg m, gen_refined_dispatch ustep adapt arg m = refined_dispatch ustep adapt arg m) /\
+  (forall n m, (n <= 0)%Z -> refined_dispatch ustep adapt (RScalar n) m = m) /\
+  (forall n m, (0 <= n)%Z ->
+     refined_dispatch ustep adapt (RScalar (n + 1)) m = ustep (refined_dispatch ustep adapt (RScalar n) m)) /\
+  (forall a b m, (0 <= a)%Z -> (0 <= b)%Z ->
+     refined_dispatch ustep adapt (RScalar (a + b)) m
+     = refined_dispatch ustep adapt (RScalar b) (refined_dispatch ustep adapt (RScalar a) m)) /\
+  (forall ix m, refined_dispatch ustep adapt (RIndex ix) m = adapt ix m) /\
+  (forall mask m, refined_dispatch ustep adapt (RMask mask) m = adapt (nonzero mask) m /\
+                  forall k, In k (nonzero mask) <-> nth k mask false = true).
+Proof.
+  intros M ustep adapt. split; [intros [n|ix|b] m; reflexivity|].
+  split; [exact (refined_scalar_nonpos ustep adapt)|]. split; [exact (refined_scalar_succ ustep adapt)|].
+  split; [exact (refined_scalar_add ustep adapt)|]. split; [exact (refined_index ustep adapt)|].
+  intros mask m. split; [reflexivity | apply nonzero_spec].
+Qed.
+Print Assumptions C12_refined_dispatch.
+
 (* second-order classes: MeshTri2 / MeshQuad2 / MeshHex2 refine through from_mesh (tags dropped) and Mesh.refined re-creates the
    subdomains with the generic fallback, MeshTet2 (after N1) refines as MeshTet1 carrying the subdomains: in every case the
    index map in force is the position of the children of the linear class (C12_*_children above) *)
